@@ -916,10 +916,9 @@ pub fn check(ctx: &CheckCtx) -> Option<Found> {
     }
     let t = ctx.tier;
     let child = crate::ship::is_child();
-    if !child {
-        if let Some(f) = ctx.search("sched", case_strategy(), t.pick(12_000, 200_000), 6, None, run_case) {
-            return Some(f);
-        }
+    // (the ship-profile child runs a short schedule search only)
+    if let Some(f) = ctx.search("sched", case_strategy(), if child { 800 } else { t.pick(12_000, 200_000) }, 6, None, run_case) {
+        return Some(f);
     }
     if let Some(f) = ctx.search("free", free_strategy(), if child { 300 } else { t.pick(3_000, 100_000) }, 4, None, run_free) {
         return Some(f);
